@@ -17,12 +17,13 @@ from tvf.env import Check, fmt_exc
 def gen_data(rng, nmax=1000):
     d = int(rng.integers(1, 7))
     n = int(rng.integers(2 * d, min(nmax, 120) + 1)) if rng.random() < 0.7 else int(rng.integers(120, nmax + 1))
-    kind = str(rng.choice(["separated", "overlapping", "single", "duplicated", "near-degenerate", "unit-cube", "offset"]))
+    kind = str(rng.choice(["separated", "overlapping", "single", "duplicated", "near-degenerate", "unit-cube", "offset", "far-apart"]))
     k = int(rng.integers(1, 4))
     if kind == "single":
         k = 1
     lab = rng.integers(0, k, n)
-    sep = {"separated": 8.0, "overlapping": 1.5}.get(kind, 5.0)
+    # "far-apart": clusters 1e4..1e9 spreads from each other (second moments about a common origin cancel catastrophically)
+    sep = {"separated": 8.0, "overlapping": 1.5, "far-apart": float(10 ** rng.uniform(4, 9))}.get(kind, 5.0)
     centers = rng.standard_normal((k, d)) * sep
     X = centers[lab] + rng.standard_normal((n, d)) * (0.3 + rng.random((1, d)))
     if kind == "duplicated":
